@@ -86,8 +86,11 @@ class GenericResolver(Generic[K, M]):
         if not hasattr(tp, "__orig_bases__"):
             return members_storage
 
+        # `__orig_bases__` is inherited from parent if class has no subscribed bases (e.g. ``class Child(Parent)``),
+        # so it must be taken only from the class itself, such bare generic bases get implicit parameters
+        orig_bases = tp.__dict__.get("__orig_bases__", tp.__bases__) if isinstance(tp, type) else tp.__orig_bases__
         bases_members: dict[K, TypeHint] = {}
-        for base in reversed(tp.__orig_bases__):
+        for base in reversed(orig_bases):
             bases_members.update(self.get_resolved_members(base).members)
 
         return replace(
